@@ -1,5 +1,7 @@
 mod iter;
 
+use std::io;
+
 use noodles_core::Position;
 use noodles_sam as sam;
 
@@ -30,6 +32,18 @@ impl<'r, 'c: 'r> Sequence<'r, 'c> {
             alignment_start,
             read_length,
         }
+    }
+}
+
+impl Sequence<'_, '_> {
+    /// Validates that the sequence can be built from the features and the reference sequence.
+    pub(super) fn validate(&self) -> io::Result<()> {
+        iter::validate(
+            self.reference_sequence,
+            self.features,
+            self.alignment_start,
+            self.read_length,
+        )
     }
 }
 
